@@ -9,8 +9,11 @@ Oracle: mc/ref/sparse.py (plain Python lists) for every result; the same operati
 copies with cvxopt's own dense `matrix` code (property statement) and compared with the Python model.
 Structural invariant of every produced / mutated spmatrix is read from A.CCS.
 """
-import itertools
+import os, itertools
 from mc.ref import sparse as R
+
+_PID = os.getpid()
+_SEEN = set()
 
 PROPERTY = 'C16'
 LEVEL = 'model_checking'
@@ -131,8 +134,16 @@ class Ctx(object):
         self._cnt = {}
 
     def fail(self, key, msg, sub=None):
+        # The engine stops a worker after 200 recorded violations, so every key is recorded once per worker
+        # process (the first, i.e. simplest, failing input); further hits are only counted.  The process that
+        # imported the module (determinism gate, --replay) records everything.
         c = self._cnt.get(key, 0)
         self._cnt[key] = c + 1
+        if os.getpid() != _PID:
+            if key in _SEEN:
+                self.count('further-hits-of-an-already-recorded-violation-key')
+                return False
+            _SEEN.add(key)
         if c < 2:
             self.viol.append({'key': key, 'msg': msg[:700], 'sub': sub})
         return False
@@ -290,15 +301,31 @@ def risky_get(si, sj, nc):
 
 
 # ====================================================================================== get / set evaluation
-def key_idx(op, specs, dims):
+VCLASS = {'num': 'number', 'num0': 'number', 'numi': 'number', 'numz': 'number-complex', 'd11': 'dense1x1', 'dfit': 'dense',
+          'dfiti': 'dense', 'dfitz': 'dense-complex', 'lfit': 'sequence', 'dwrong': 'dense-wrong-size', 'dtr': 'dense-wrong-size',
+          'sfit': 'sparse', 'sfitz': 'sparse-complex', 'sfull': 'sparse', 'sempty': 'sparse', 'swrong': 'sparse-wrong-size'}
+
+
+def key_idx(op, specs, dims, vk=None):
+    """call site (operation, index kinds) + input feature class (+ class of the assigned value)."""
     kinds = ','.join(KIND[s[0]] for s in specs)
     if len(specs) == 1:
         fl = R.flags1(specs[0], dims[0] * dims[1])
     else:
         fl = R.flags2(specs[0], specs[1], dims[0], dims[1])
     if dims[0] * dims[1] == 0:
-        fl = ['empty-dim'] + fl
-    return 'C16:%s:%s:%s' % (op, kinds, '+'.join(fl) or 'plain')
+        cls = 'empty-dim'
+    elif any('dup' in f for f in fl):
+        cls = 'dup'
+        kinds = 'one-arg' if len(specs) == 1 else 'two-arg'
+    elif op == 'getitem' and len(specs) == 2 and specs[0][0] == 's' and 'cneg' in fl:
+        cls = 'cneg'
+    else:
+        cls = '+'.join(fl) or 'plain'
+    k = 'C16:%s:%s:%s' % (op, kinds, cls)
+    if vk is not None:
+        k += ':' + VCLASS[vk]
+    return k
 
 
 def ev_get(c, A, snapA, Am, Ad, specs):
@@ -341,9 +368,9 @@ def ev_get(c, A, snapA, Am, Ad, specs):
                 c.count('dense-side-differs-from-model:getitem-raises')
 
 
-VK_ALL = ('num', 'num0', 'numi', 'numz', 'd11', 'dfit', 'dfiti', 'dfitz', 'sfit', 'sfitz', 'sfull', 'lfit',
+VK_ALL = ('num', 'num0', 'numi', 'numz', 'd11', 'dfit', 'dfiti', 'dfitz', 'sfit', 'sfitz', 'sfull', 'sempty', 'lfit',
           'dwrong', 'swrong', 'dtr')
-VK_SCALARIDX_SKIP = ('sfit', 'sfitz', 'sfull', 'swrong', 'lfit', 'dtr')
+VK_SCALARIDX_SKIP = ('sfit', 'sfitz', 'sfull', 'sempty', 'swrong', 'lfit', 'dtr')
 
 
 def make_value(vk, nr, nc, seed):
@@ -378,7 +405,7 @@ def make_value(vk, nr, nc, seed):
     tc = 'z' if vk == 'sfitz' else 'd'
     if vk == 'swrong':
         nc = nc + 1
-    st = '2' * (nr * nc) if vk == 'sfull' else ''.join('201'[k % 3] for k in range(nr * nc))
+    st = '2' * (nr * nc) if vk == 'sfull' else ('0' * (nr * nc) if vk == 'sempty' else ''.join('201'[k % 3] for k in range(nr * nc)))
     Dv, vp = model_of([nr, nc, tc, st], seed, 5)
     S = sp_of(Dv, vp)
     return S, ('s', Dv), dn_of(Dv), vp
@@ -406,7 +433,7 @@ def ev_set(c, A0, Am, pat, specs, vk, seed):
     if vk == 'dtr' and lhs[0] == lhs[1]:
         return
     c.n += 1
-    K = key_idx('setitem', specs, (Am.nr, Am.nc)) + ':' + vk
+    K = key_idx('setitem', specs, (Am.nr, Am.nc), vk)
     sub = {'A': [Am.nr, Am.nc, Am.tc, Am.a], 'pattern': sorted(pat), 'index': specs, 'value': vk}
     val, mval, dval, vpat = make_value(vk, lhs[0], lhs[1], seed)
     vsnap = snap(val) if vpat is not None else (list(val) if hasattr(val, 'size') else None)
@@ -1049,10 +1076,16 @@ def ev_gemm(c, m, n, k, tc, combo, tA, tB, seed, tier, npat=None):
             Bm, bp = model_of([shB[0], shB[1], tc, b_], seed, 3)
             B = sp_of(Bm, bp) if sB_ else dn_of(Bm)
             snB = snap(B) if sB_ else list(B)
+            # feature of the input: some column of op(B) has no stored entry
+            bflag = ''
+            if sB_:
+                cols = set((p // shB[0]) if tB == 'N' else (p % shB[0]) for p in bp)
+                if len(cols) < n:
+                    bflag = '+Bemptycol'
             for c_ in pC:
                 Cm, cp = model_of([m, n, tc, c_], seed, 6)
                 for partial in ((False, True) if sC_ else (False,)):
-                    K = 'C16:gemm:%s:transA=%s,transB=%s:partial=%s' % (cname, tA, tB, partial)
+                    K = 'C16:gemm:%s:%s:transA=%s:partial=%s%s' % (tc, cname, tA, partial, bflag)
                     for al in AB:
                         for be in AB:
                             c.n += 1
@@ -1102,8 +1135,8 @@ def ev_syrk(c, n, k, tc, combo, uplo, t, seed, tier, npat=None):
         for c_ in pC:
             Cm, cp = model_of([n, n, tc, c_], seed, 6)
             for partial in ((False, True) if sC_ else (False,)):
-                K = 'C16:syrk:%s:uplo=%s,trans=%s:partial=%s' % (cname, uplo, t, partial)
                 for al in AB:
+                    K = 'C16:syrk:%s:%s:trans=%s:partial=%s:alpha=%s%s' % (tc, cname, t, partial, al, ',k=0' if k == 0 else '')
                     for be in AB:
                         c.n += 1
                         sub = {'A': [shA[0], shA[1], tc, a_], 'C': [n, n, tc, c_], 'alpha': al, 'beta': be}
@@ -1130,3 +1163,633 @@ def ev_syrk(c, n, k, tc, combo, uplo, t, seed, tier, npat=None):
                                 c.nontrivial += 1
         if (snap(A) if sA_ else list(A)) != snA:
             c.fail('C16:syrk:%s:operand-modified' % cname, 'A changed', {'A': a_})
+
+
+# ====================================================================================== sparse() block lists, spdiag()
+def _blk(kind, r, q, tc, seed, salt):
+    """block of kind 's' (sparse), 'd' (dense), 'n' (number, 1x1 only) -> (object, model)"""
+    if kind == 'n':
+        v = pval(seed, salt, tc) if salt % 3 else (0 if tc == 'd' else 0j)
+        return v, v
+    st = ''.join('201'[(i + salt) % 3] for i in range(r * q))
+    Dm, ps = model_of([r, q, tc, st], seed, salt)
+    return (sp_of(Dm, ps) if kind == 's' else dn_of(Dm)), Dm
+
+
+def ev_blocks(c, seed, tier, part):
+    """sparse([[A, C], [B, D]]) (list of block columns) over block heights/widths in {1,2} and block kinds."""
+    from cvxopt import sparse
+    tcmix = ('dddd', 'zzzz', 'dzdd', 'ddzd') if tier == 'thorough' else ('dddd', 'dzdd')
+    idx = 0
+    for r1, r2, q1, q2 in itertools.product((1, 2), repeat=4):
+        for kinds in itertools.product('sdn', repeat=4):
+            dims = ((r1, q1), (r2, q1), (r1, q2), (r2, q2))     # A, B (first block column), C, D
+            if any(k == 'n' and d != (1, 1) for k, d in zip(kinds, dims)):
+                continue
+            idx += 1
+            if idx % 4 != part:
+                continue
+            for tcs in tcmix:
+                c.n += 1
+                K = 'C16:sparse(blocks):%s' % ''.join(kinds)
+                sub = {'heights': [r1, r2], 'widths': [q1, q2], 'kinds': ''.join(kinds), 'tcs': tcs}
+                ob, mo = [], []
+                for t, (k, d) in enumerate(zip(kinds, dims)):
+                    o, mm = _blk(k, d[0], d[1], tcs[t], seed, 2 * t + 1)
+                    ob.append(o); mo.append(mm)
+                exp = R.blocks([[mo[0], mo[1]], [mo[2], mo[3]]])
+                try:
+                    S = sparse([[ob[0], ob[1]], [ob[2], ob[3]]])
+                except Exception as e:
+                    c.fail(K + ':exception:' + type(e).__name__, 'valid block matrix raised %r' % e, sub)
+                    continue
+                nzp = set(p for p, v in enumerate(exp.a) if v != 0)
+                if vsp(c, K, S, exp, nzp, sub):
+                    c.count('blocks:ok')
+                    c.nontrivial += 1
+                # a single block column given as a plain list, and explicit tc
+                c.n += 1
+                exp1 = R.blocks([[mo[0], mo[1]]])
+                try:
+                    S1 = sparse([ob[0], ob[1]])
+                    if vsp(c, K + ':single-column', S1, exp1, set(p for p, v in enumerate(exp1.a) if v != 0), sub):
+                        c.count('blocks:ok')
+                    S2 = sparse([[ob[0], ob[1]]], tc='z')
+                    vsp(c, K + ':tc=z', S2, R.as_tc(exp1, 'z'), None, sub)
+                except Exception as e:
+                    c.fail(K + ':single-column:exception:' + type(e).__name__, 'raised %r' % e, sub)
+    if part == 0:
+        # incompatible block sizes are rejected
+        from cvxopt import matrix, spmatrix
+        for bad in ([[spmatrix(1.0, [0], [0], (2, 1)), matrix(1.0, (1, 2))]], [[matrix(1.0, (2, 1))], [spmatrix([], [], [], (3, 1))]]):
+            c.n += 1
+            try:
+                sparse(bad)
+                c.fail('C16:sparse(blocks):incompatible:no-exception', 'incompatible block dimensions accepted')
+            except Exception:
+                c.count('blocks:rejected')
+
+
+def ev_spdiag(c, seed, tier):
+    from cvxopt import matrix, spmatrix, spdiag
+    # vectors: dense column / row, sparse column / row
+    for n in (1, 2, 3):      # (a 0 x 1 argument is rejected; the documentation is silent on empty vectors)
+        for tc in 'idz':
+            c.n += 1
+            v = [(k + 1) * (-1) ** k for k in range(n)] if tc == 'i' else [pval(seed, k, tc) for k in range(n)]
+            if n > 1:
+                v[1] = R.zero(tc)
+            Dv = R.D(n, 1, tc, v)
+            for shape, name in (((n, 1), 'dense-column'), ((1, n), 'dense-row')):
+                K = 'C16:spdiag:' + name
+                try:
+                    S = spdiag(matrix(v, shape, tc))
+                    if vsp(c, K, S, R.diag(Dv), None, {'x': v, 'tc': tc}):
+                        c.count('spdiag:ok')
+                        c.nontrivial += 1 if n else 0
+                except Exception as e:
+                    c.fail(K + ':exception:' + type(e).__name__, 'raised %r' % e, {'x': v, 'tc': tc})
+        for tc in 'dz':
+            for st in all_patterns(n):
+                Dm, ps = model_of([n, 1, tc, st], seed)
+                for shape, name in (((n, 1), 'sparse-column'), ((1, n), 'sparse-row')):
+                    c.n += 1
+                    K = 'C16:spdiag:' + name
+                    sub = {'x': [n, 1, tc, st], 'shape': list(shape)}
+                    X = spmatrix([Dm.a[p] for p in sorted(ps)], [p if shape[1] == 1 else 0 for p in sorted(ps)],
+                                 [0 if shape[1] == 1 else p for p in sorted(ps)], shape, tc)
+                    try:
+                        S = spdiag(X)
+                    except Exception as e:
+                        c.fail(K + ':exception:' + type(e).__name__, 'raised %r' % e, sub)
+                        continue
+                    if vsp(c, K, S, R.diag(Dm), None, sub):
+                        c.count('spdiag:ok')
+                        c.nontrivial += 1 if ps else 0
+    # lists of square blocks and scalars
+    items = [('n', 1, 'd'), ('n', 1, 'z'), ('d', 1, 'd'), ('d', 2, 'd'), ('s', 2, 'd'), ('s', 2, 'z'), ('d', 2, 'i'), ('s', 1, 'd'),
+             ('s', 0, 'd'), ('d', 0, 'd')]
+    if tier != 'thorough':
+        items = items[:8]
+    for L in range(0, 4):
+        for combo in itertools.product(range(len(items)), repeat=L):
+            c.n += 1
+            ob, mo = [], []
+            for t, ii in enumerate(combo):
+                k, r, tc = items[ii]
+                if tc == 'i':
+                    Dm = R.D(r, r, 'i', [(q + 1) * (-1) ** q if q != 1 else 0 for q in range(r * r)])
+                    o, mm = dn_of(Dm), Dm
+                else:
+                    o, mm = _blk(k, r, r, tc, seed, t + 1)
+                ob.append(o); mo.append(mm)
+            K = 'C16:spdiag:list'
+            sub = {'items': [list(items[ii]) for ii in combo]}
+            try:
+                S = spdiag(ob)
+            except Exception as e:
+                c.fail(K + ':exception:' + type(e).__name__, 'raised %r' % e, sub)
+                continue
+            if vsp(c, K, S, R.blockdiag(mo), None, sub):
+                c.count('spdiag:ok')
+                c.nontrivial += 1 if L else 0
+    c.n += 1
+    try:
+        spdiag([matrix(1.0, (2, 3))])
+        c.fail('C16:spdiag:list:non-square:no-exception', 'non-square block accepted')
+    except Exception:
+        c.count('spdiag:rejected')
+
+
+# ====================================================================================== hist: BFS over mutation histories
+ALLROWS = ['s', None, None, None]
+HIST_OPS = (
+    ('set', (['i', 0], ['i', 0]), 'num'),                 # A[0,0] = 7.5
+    ('set', (['i', -1], ['i', -1]), 'num0'),              # A[-1,-1] = 0.0  (explicit zero)
+    ('set', (['l', [0, -1]], ['l', [0]]), 'dfit'),        # A[I,J] = dense M
+    ('set', (ALLROWS, ['i', 0]), 'sfit'),                 # A[:,0] = sparse column
+    ('V', 'fit'),                                         # A.V = matrix
+    ('iadd', '201'),                                      # A += B
+    ('imul', 2),                                          # A *= 2
+    ('size', 'swap'),                                     # A.size = (ncols, nrows)
+    ('set', (['i', 1], ['i', 0]), 'numi'),                # A[1,0] = 3
+    ('set', (ALLROWS, ['i', -1]), 'sempty'),              # A[:,-1] = sparse column without entries
+    ('set', (['l', [4, 1]],), 'sfit'),                    # A[[4,1]] = sparse 2x1
+    ('V', 'number'),                                      # A.V = 1.25
+    ('size', 'column'),                                   # A.size = (len, 1)
+    ('set', (['i', 2],), 'num'),                          # A[2] = 7.5
+    ('set', (['i', 0], ALLROWS), 'num0'),                 # A[0,:] = 0.0
+    ('set', (['l', [1, 0]], ['l', [-1, 0]]), 'dfit'),     # A[[1,0],[-1,0]] = dense 2x2
+    ('set', (['s', None, None, 2],), 'num0'),             # A[::2] = 0.0
+    ('isub', '222'),                                      # A -= B (full)
+    ('imul', 0),                                          # A *= 0
+    ('size', 'row'),                                      # A.size = (1, len)
+)
+HIST_INIT = ([2, 3, '201020'], [3, 2, '020211'], [2, 3, '000000'])
+
+
+def hist_name(op, dims=None):
+    if op[0] == 'set':
+        nm = 'set[%s]=%s' % (','.join(KIND[s[0]] for s in op[1]), op[2])
+        if dims is not None:
+            fl = R.flags1(op[1][0], dims[0] * dims[1]) if len(op[1]) == 1 else R.flags2(op[1][0], op[1][1], dims[0], dims[1])
+            if any('dup' in f for f in fl):
+                nm += ':dup'
+        return nm
+    return '%s:%s' % (op[0], op[1])
+
+
+def hist_apply(c, A, M, pat, op, seed, check):
+    """apply one mutating operation to the implementation object A (in place) and to the model.
+    returns (A, M', pat' or None if the documentation does not define the resulting pattern)."""
+    from cvxopt import matrix
+    K = 'C16:hist:' + hist_name(op)
+    kind = op[0]
+    err = None
+    M2, pat2 = M, pat
+    if kind == 'set':
+        specs, vk = op[1], op[2]
+        one = len(specs) == 1
+        try:
+            if one:
+                sc, I = R.expand(specs[0], M.nr * M.nc)
+                lhs, pos = (len(I), 1), list(I)
+            else:
+                sci, I = R.expand(specs[0], M.nr)
+                scj, J = R.expand(specs[1], M.nc)
+                lhs, pos = (len(I), len(J)), [j * M.nr + i for j in J for i in I]
+            val, mval, _, vpat = make_value(vk, lhs[0], lhs[1], seed)
+            M2 = M.copy()
+            if one:
+                R.set1(M2, specs[0], mval)
+            else:
+                R.set2(M2, specs[0], specs[1], mval)
+            pat2 = set(pat)
+            for k, p in enumerate(pos):
+                if vpat is None or k in vpat:
+                    pat2.add(p)
+                else:
+                    pat2.discard(p)
+        except R.RefError as e:
+            err, M2, pat2 = e.kind, M, pat
+            val = make_value(vk, 1, 1, seed)[0]
+        idx = idx_obj(specs[0]) if one else (idx_obj(specs[0]), idx_obj(specs[1]))
+
+        def f():
+            A[idx] = val
+    elif kind == 'V':
+        cells = sorted(pat)
+        if op[1] == 'number':
+            v = 1.25
+            lv = [R.conv(v, M.tc)] * len(cells)
+        else:
+            lv = [pval(seed, k, M.tc, 7) for k in range(len(cells))]
+            if len(lv) > 1:
+                lv[1] = R.zero(M.tc)
+            v = matrix(lv, (len(lv), 1), M.tc)
+        M2 = R.D(M.nr, M.nc, M.tc)
+        for k, p in enumerate(cells):
+            M2.a[p] = lv[k]
+
+        def f():
+            A.V = v
+    elif kind in ('iadd', 'isub'):
+        st = ''.join(op[1][k % 3] for k in range(M.nr * M.nc))
+        Bm, bp = model_of([M.nr, M.nc, M.tc, st], seed, 3)
+        B = sp_of(Bm, bp)
+        M2 = R.as_tc(R.add(M, Bm, 1 if kind == 'iadd' else -1), M.tc)
+        pat2 = None
+
+        def f():
+            X = A
+            if kind == 'iadd':
+                X += B
+            else:
+                X -= B
+            if X is not A:
+                raise AssertionError('in-place operation returned a new object')
+    elif kind == 'imul':
+        M2 = R.scal(op[1], M, M.tc)
+
+        def f():
+            X = A
+            X *= op[1]
+            if X is not A:
+                raise AssertionError('in-place operation returned a new object')
+    else:
+        L = M.nr * M.nc
+        new = {'swap': (M.nc, M.nr), 'column': (L, 1), 'row': (1, L)}[op[1]]
+        M2 = R.reshape(M, new[0], new[1])
+
+        def f():
+            A.size = new
+    try:
+        f()
+        exc = None
+    except Exception as e:
+        exc = e
+    if check:
+        c.n += 1
+        if err is not None and exc is None:
+            c.fail(K + ':no-exception', 'documented semantics reject the operation (%s) but it was accepted' % err,
+                   {'state': [M.nr, M.nc, M.tc, M.a]})
+        elif err is None and exc is not None:
+            c.fail(K + ':exception:' + type(exc).__name__, 'valid operation raised %r' % exc, {'state': [M.nr, M.nc, M.tc, M.a]})
+    return M2, pat2
+
+
+def hist_state_check(c, A, M, pat, hist, seed, dims=None):
+    """invariant + lock-step comparison + differential against a matrix built from scratch."""
+    from cvxopt import spmatrix
+    K = 'C16:hist:' + hist_name(hist[-1], dims) if hist else 'C16:hist:initial'
+    sub = {'history': [hist_name(h) for h in hist]}
+    if not vsp(c, K, A, M, pat, sub):
+        return None
+    s = snap(A)
+    cp, ri = s[2], s[3]
+    cells = [j * M.nr + ri[k] for j in range(M.nc) for k in range(cp[j], cp[j + 1])]
+    S = spmatrix([M.a[p] for p in cells], [p % M.nr for p in cells], [p // M.nr for p in cells], (M.nr, M.nc), M.tc)
+    t = snap(S)
+    if t[:4] != s[:4] or any(not same(g, w) for g, w in zip(s[4], t[4])):
+        c.fail(K + ':differs-from-scratch', 'object %r, from scratch %r' % (s, t), sub)
+        return None
+    return set(cells)
+
+
+def run_hist(c, case, seed):
+    init = HIST_INIT[case['init']]
+    desc = [init[0], init[1], case['tc'], init[2]]
+    ops = HIST_OPS[:case['nops']]
+    depth = case['depth']
+    M0, p0 = model_of(desc, seed)
+    states = transitions = 0
+    seen = set()
+
+    def replay(hist):
+        A, M, pat = sp_of(M0, p0), M0, p0
+        for h in hist:
+            M, pat = hist_apply(c, A, M, pat, h, seed, False)
+            if pat is None:
+                cp, ri = A.CCS[0], A.CCS[1]
+                pat = set(j * M.nr + ri[k] for j in range(M.nc) for k in range(cp[j], cp[j + 1]))
+        return A, M, pat
+
+    frontier = [[]]
+    if case['first'] is None:
+        A, M, pat = replay([])
+        hist_state_check(c, A, M, pat, [], seed)
+        return 1, 0
+    for level in range(depth):
+        nxt = []
+        for hist in frontier:
+            for oi, op in enumerate(ops):
+                if level == 0 and oi != case['first']:
+                    continue
+                A, M, pat = replay(hist)
+                M2, pat2 = hist_apply(c, A, M, pat, op, seed, True)
+                transitions += 1
+                h2 = hist + [op]
+                newpat = hist_state_check_or_known(c, A, M2, pat2, h2, seed, seen, (M.nr, M.nc))
+                if newpat is not None:
+                    states += 1
+                    nxt.append(h2)
+        frontier = nxt
+    return states, transitions
+
+
+def _cells(s):
+    cp, ri, nr = s[2], s[3], s[0][0]
+    return set(j * nr + ri[k] for j in range(s[0][1]) for k in range(cp[j], cp[j + 1]))
+
+
+def hist_state_check_or_known(c, A, M2, pat2, h2, seed, seen, dims=None):
+    """returns the pattern of a NEW valid state, None for an already visited or an invalid one."""
+    s = snap(A)
+    k = (s, tuple(M2.a), M2.nr, M2.nc)
+    if k in seen and (pat2 is None or pat2 == _cells(s)):
+        return None            # same implementation state and same model state: already validated
+    got = hist_state_check(c, A, M2, pat2, h2, seed, dims)
+    if got is None or k in seen:
+        return None
+    seen.add(k)
+    return got
+
+
+# ====================================================================================== enumeration
+FIXED = ([0, 0, ''], [0, 3, ''], [3, 0, ''], [0, 1, ''], [1, 0, ''], [1, 1, '0'], [1, 1, '1'], [1, 1, '2'],
+         [1, 3, '201'], [1, 3, '020'], [3, 1, '120'], [3, 1, '002'],
+         [3, 3, '000000000'], [3, 3, '222222222'], [3, 3, '200020002'], [3, 3, '201020102'], [3, 3, '220022002'],
+         [3, 3, '000222000'], [3, 3, '020020020'], [3, 3, '211000112'])
+SEL = ([2, 3, 'd', '202120'], [3, 2, 'z', '021202'], [2, 3, 'z', '120212'], [3, 2, 'd', '220201'])
+TINY = {'i': lambda d: [['i', 0], ['i', -1], ['i', 1], ['i', d]],
+        's': lambda d: [['s', None, None, None], ['s', None, None, -1], ['s', 1, None, None], ['s', None, -1, None],
+                        ['s', None, None, 2], ['s', 0, 0, None]],
+        'l': lambda d: [['l', []], ['l', [-1]], ['l', [1, 0]], ['l', [0, 0]]],
+        'm': lambda d: [['m', [0]], ['m', [-1, 0]]]}
+VK_QUICK = ('num', 'num0', 'd11', 'dfit', 'sfit', 'dwrong')
+VK_MID = ('num', 'dfit', 'sfit')
+
+
+def chunks(L, k):
+    return [L[i:i + k] for i in range(0, len(L), k)]
+
+
+def cases(tier, seed, flavour):
+    th = tier == 'thorough'
+    red = flavour == 'asan' and not th            # reduced domain on the sanitizer build of the quick tier
+    # ---- 0. fixed small / empty matrices: construction (safe first case for the determinism gate)
+    yield {'p': 'ctor', 'descs': [[f[0], f[1], tc, f[2]] for f in FIXED for tc in 'dz']}
+    # ---- 1. single-operation cases that kill the interpreter / read outside the matrix on the unchanged tree
+    for (m, n) in ((0, 3), (0, 0), (3, 0)):
+        for spec in (['l', []], ['m', []], ['s', None, None, None]):
+            for vk in ('num', 'dfit', 'sfit'):
+                for tc in ('dz' if (m, n, vk) == (0, 3, 'num') else 'd'):
+                    yield {'p': 'risky', 'op': 'set', 'A': [m, n, tc, ''], 'specs': [spec], 'vk': vk,
+                           'ck': 'setitem:%s:empty-dim' % KIND[spec[0]]}
+    for rs in (['s', None, None, None], ['s', 0, 2, None], ['s', None, None, -1]):
+        for cs in (['l', [-1]], ['l', [-2]], ['m', [-1]], ['l', [0, -1]]):
+            yield {'p': 'risky', 'op': 'get', 'A': [2, 3, 'd', '202122'], 'specs': [rs, cs],
+                   'ck': 'getitem:slice,%s:cneg' % KIND[cs[0]]}
+    for combo in ((1, 1), (1, 0), (0, 1)):
+        yield {'p': 'risky', 'op': 'syrkz', 'combo': list(combo), 'ck': 'syrk:z:sparse-operand'}
+    yield {'p': 'risky', 'op': 'syrk-k0', 'ck': 'syrk:d:dense,sparse:k=0'}
+    # ---- 2. fixed patterns: every operation family
+    for f in FIXED:
+        for tc in 'dz':
+            d = [f[0], f[1], tc, f[2]]
+            yield {'p': 'unary', 'descs': [d]}
+            yield {'p': 'binary', 'A': [d], 'tcb': 'dz', 'tier': 'thorough'}
+            yield {'p': 'index', 'A': d, 'level': 'small', 'vks': list(VK_ALL), 'get': True}
+            yield {'p': 'gemv', 'descs': [d]}
+            if f[0] == f[1] and tc == 'd':
+                yield {'p': 'symv', 'descs': [d]}
+    # ---- 3. all patterns over {absent, explicit zero, nonzero}: construction, unary / attribute operations, binary
+    P3 = all_patterns(6)
+    P2 = all_patterns(6, '02')
+    for (m, n) in SHAPES:
+        for tc in 'dz':
+            for bi, blk in enumerate(chunks(P3, 81)):
+                if red and bi % 2:
+                    continue
+                ds = [[m, n, tc, p] for p in blk]
+                yield {'p': 'ctor', 'descs': ds}
+                yield {'p': 'unary', 'descs': ds}
+            for bi, blk in enumerate(chunks(P3 if th else P3[::3], 27)):
+                if red and bi % 2:
+                    continue
+                yield {'p': 'binary', 'A': [[m, n, tc, p] for p in blk], 'tcb': 'dz' if th else tc + ('z' if tc == 'd' else 'd'),
+                       'tier': tier}
+    # ---- 4. block matrices and spdiag
+    for part in range(4):
+        yield {'p': 'blocks', 'part': part, 'tier': tier}
+    yield {'p': 'spdiag', 'tier': tier}
+    # ---- 5. index sweeps: patterns x index palette, get and set
+    for (m, n) in SHAPES:
+        for tc in 'dz':
+            for bi, blk in enumerate(chunks(P3 if th else P2, 8)):
+                if red and bi % 2:
+                    continue
+                for p in blk:
+                    yield {'p': 'index', 'A': [m, n, tc, p], 'level': 'tiny', 'vks': list(VK_QUICK), 'get': True}
+            if th:
+                for p in P2:
+                    yield {'p': 'index', 'A': [m, n, tc, p], 'level': 'small', 'vks': list(VK_ALL), 'get': True}
+    # ---- 6. selected matrices x full index-expression domains
+    sel = SEL[:1] if red else (SEL if th else SEL[:2])
+    for d in sel:
+        for k in 'islm':
+            yield {'p': 'index1', 'A': d, 'kind': k, 'level': 'full', 'vks': list(VK_ALL)}
+        for rk in 'islm':
+            for ck in 'islm':
+                yield {'p': 'index2', 'A': d, 'rk': rk, 'ck': ck, 'rl': 'mid', 'cl': 'mid', 'vks': [], 'get': True}
+                for vk in (VK_ALL if th else VK_MID):
+                    yield {'p': 'index2', 'A': d, 'rk': rk, 'ck': ck, 'rl': 'mid', 'cl': 'mid', 'vks': [vk], 'get': False}
+        for lk in 'lm':
+            for ok in 'islm':
+                for vks, get in (([], True), (['num'], False), (['dfit'], False), (['sfit'], False)):
+                    yield {'p': 'index2', 'A': d, 'rk': lk, 'ck': ok, 'rl': 'full', 'cl': 'small', 'vks': vks, 'get': get}
+                    yield {'p': 'index2', 'A': d, 'rk': ok, 'ck': lk, 'rl': 'small', 'cl': 'full', 'vks': vks, 'get': get}
+    if th:
+        for d in SEL[:2]:
+            for rk in 'sl':
+                for ck in 'sl':
+                    for part in range(8):
+                        yield {'p': 'index2', 'A': d, 'rk': rk, 'ck': ck, 'rl': 'full', 'cl': 'full', 'vks': [], 'get': True,
+                               'part': [part, 8]}
+                        yield {'p': 'index2', 'A': d, 'rk': rk, 'ck': ck, 'rl': 'full', 'cl': 'full', 'vks': ['num'], 'get': False,
+                               'part': [part, 8]}
+    # ---- 7. base.axpy / gemv / symv / gemm / syrk
+    for (m, n) in SHAPES:
+        for tcx in 'dz':
+            for tcy in 'dz':
+                yield {'p': 'axpy', 'm': m, 'n': n, 'tcx': tcx, 'tcy': tcy, 'px': pal(m, n, 'thorough'),
+                       'py': pal(m, n, 'thorough') if not th else None}
+        for tc in 'dz':
+            for bi, blk in enumerate(chunks(P3 if th else P2, 16)):
+                if red and bi % 2:
+                    continue
+                yield {'p': 'gemv', 'descs': [[m, n, tc, p] for p in blk]}
+    yield {'p': 'symv', 'descs': [[2, 2, 'd', p] for p in all_patterns(4)]}
+    npat = 5 if th else (2 if red else 3)
+    for (m, n, k) in ((2, 3, 2), (3, 2, 3), (1, 2, 3), (2, 1, 1), (2, 2, 0), (0, 2, 2), (2, 0, 2)) + (((3, 3, 1), (1, 1, 2)) if th else ()):
+        for tc in 'dz':
+            for combo in itertools.product((1, 0), repeat=3):
+                if combo == (0, 0, 0):
+                    continue
+                for tA in 'NTC':
+                    for tB in 'NTC':
+                        yield {'p': 'gemm', 'm': m, 'n': n, 'k': k, 'tc': tc, 'combo': list(combo), 'tA': tA, 'tB': tB, 'npat': npat}
+    for (n, k) in ((2, 3), (3, 2), (1, 2), (3, 1), (2, 0), (0, 2)):
+        for combo in ((1, 1), (1, 0), (0, 1)):
+            if k == 0 and combo == (0, 1):
+                continue                      # single-operation case above (uninitialised result on the unchanged tree)
+            for uplo in 'LU':
+                for t in 'NTC':
+                    yield {'p': 'syrk', 'n': n, 'k': k, 'tc': 'd', 'combo': list(combo), 'uplo': uplo, 't': t, 'npat': npat + 1}
+    # ---- 8. hist: BFS over mutation histories, one sub-search per first operation
+    nops, depth = (20, 4) if th else (14, 3)
+    if red:
+        nops = 10
+    for init in range(len(HIST_INIT)):
+        for tc in 'dz':
+            yield {'p': 'hist', 'init': init, 'tc': tc, 'first': None, 'nops': nops, 'depth': depth}
+            for first in range(nops):
+                yield {'p': 'hist', 'init': init, 'tc': tc, 'first': first, 'nops': nops, 'depth': depth}
+
+
+def crash_key(case):
+    if case.get('ck'):
+        return case['ck']
+    p = case.get('p')
+    if p in ('index', 'index1', 'index2'):
+        A = case['A']
+        return '%s:%dx%d:%s:%s' % (p, A[0], A[1], A[2], case.get('kind') or (case.get('rk', '') + case.get('ck', '')) or case.get('level'))
+    if p == 'gemm':
+        return 'gemm:%s:%s:transA=%s,transB=%s' % (case['tc'], ','.join('sparse' if s else 'dense' for s in case['combo']), case['tA'], case['tB'])
+    if p == 'syrk':
+        return 'syrk:%s:%s' % (case['tc'], ','.join('sparse' if s else 'dense' for s in case['combo']))
+    if p == 'hist':
+        return 'hist:%s' % (hist_name(HIST_OPS[case['first']]) if case['first'] is not None else 'initial')
+    return str(p)
+
+
+# ====================================================================================== execution
+def run(case):
+    import os
+    seed = int(os.environ.get('VERIF_SEED', '0') or 0)
+    c = Ctx()
+    extra = {}
+    try:
+        _run(c, case, seed, extra)
+    except Exception as e:
+        import traceback
+        c.fail('C16:harness:%s:%s' % (case.get('p'), type(e).__name__), traceback.format_exc()[-1500:], None)
+    return c.result(**extra)
+
+
+def _index_eval(c, d, seed, pairs1, pairs2, vks, get):
+    Am, pat = model_of(d, seed)
+    A = sp_of(Am, pat)
+    sA = snap(A)
+    Ad = dn_of(Am)
+    nc = d[1]
+    for specs in itertools.chain(pairs1, pairs2):
+        if len(specs) == 2 and risky_get(specs[0], specs[1], nc):
+            rg = True
+        else:
+            rg = False
+        if get and not rg:
+            ev_get(c, A, sA, Am, Ad, specs)
+        if len(specs) == 1 and specs[0][0] != 'i' and d[0] == 0:
+            continue            # kills the interpreter on the unchanged tree: single-operation cases only
+        for vk in vks:
+            ev_set(c, A, Am, pat, specs, vk, seed)
+    if snap(A) != sA:
+        c.fail('C16:setitem:source-modified', 'assignment to a copy changed the original', {'A': d})
+
+
+def _run(c, case, seed, extra):
+    p = case['p']
+    if p == 'ctor':
+        for d in case['descs']:
+            ev_ctor(c, d, seed)
+    elif p == 'unary':
+        for d in case['descs']:
+            ev_unary(c, d, seed)
+    elif p == 'binary':
+        for d in case['A']:
+            for tcb in case['tcb']:
+                for pb in b_palette(d[0], d[1], case['tier']) if d[0] * d[1] else ['']:
+                    ev_binary(c, d, [d[0], d[1], tcb, pb], seed)
+    elif p == 'blocks':
+        ev_blocks(c, seed, case['tier'], case['part'])
+    elif p == 'spdiag':
+        ev_spdiag(c, seed, case['tier'])
+    elif p == 'index':
+        d = case['A']
+        m, n = d[0], d[1]
+        lv = case['level']
+        if lv == 'tiny':
+            dom = lambda k, dim, one=False: TINY[k](dim)
+        else:
+            dom = lambda k, dim, one=False: dom_kind(k, dim, lv, one)
+        p1 = [(s,) for k in 'islm' for s in dom(k, m * n, True)]
+        p2 = [(s1, s2) for k1 in 'islm' for k2 in 'islm' for s1 in dom(k1, m) for s2 in dom(k2, n)]
+        _index_eval(c, d, seed, p1, p2, case['vks'], case['get'])
+    elif p == 'index1':
+        d = case['A']
+        p1 = [(s,) for s in dom_kind(case['kind'], d[0] * d[1], case['level'], True)]
+        _index_eval(c, d, seed, p1, [], case['vks'], True)
+    elif p == 'index2':
+        d = case['A']
+        R1 = dom_kind(case['rk'], d[0], case['rl'])
+        C1 = dom_kind(case['ck'], d[1], case['cl'])
+        p2 = ((s1, s2) for s1 in R1 for s2 in C1)
+        if case.get('part'):
+            k, nk = case['part']
+            p2 = ((s1, s2) for i, s1 in enumerate(R1) if i % nk == k for s2 in C1)
+        _index_eval(c, d, seed, [], p2, case['vks'], case['get'])
+    elif p == 'axpy':
+        m, n = case['m'], case['n']
+        pys = case['py'] if case['py'] is not None else all_patterns(m * n)
+        for px in case['px']:
+            for py in pys:
+                ev_axpy(c, [m, n, case['tcx'], px], [m, n, case['tcy'], py], seed)
+    elif p == 'gemv':
+        for d in case['descs']:
+            ev_gemv(c, d, seed, 'thorough')
+    elif p == 'symv':
+        for d in case['descs']:
+            ev_symv(c, d, seed, 'thorough')
+    elif p == 'gemm':
+        ev_gemm(c, case['m'], case['n'], case['k'], case['tc'], tuple(case['combo']), case['tA'], case['tB'], seed,
+                'thorough', case['npat'])
+    elif p == 'syrk':
+        ev_syrk(c, case['n'], case['k'], case['tc'], tuple(case['combo']), case['uplo'], case['t'], seed, 'thorough', case['npat'])
+    elif p == 'hist':
+        st, tr = run_hist(c, case, seed)
+        extra.update(states=st, transitions=tr, traces=tr)
+    elif p == 'risky':
+        _run_risky(c, case, seed)
+    else:
+        raise AssertionError('unknown part %r' % p)
+
+
+def _run_risky(c, case, seed):
+    op = case['op']
+    if op == 'set':
+        d = case['A']
+        Am, pat = model_of(d, seed)
+        ev_set(c, sp_of(Am, pat), Am, pat, tuple(case['specs']), case['vk'], seed)
+    elif op == 'get':
+        d = case['A']
+        Am, pat = model_of(d, seed)
+        A = sp_of(Am, pat)
+        ev_get(c, A, snap(A), Am, dn_of(Am), tuple(case['specs']))
+    elif op == 'syrkz':
+        ev_syrk(c, 2, 3, 'z', tuple(case['combo']), 'L', 'N', seed, 'quick', 2)
+    elif op == 'syrk-k0':
+        ev_syrk(c, 2, 0, 'd', (0, 1), 'L', 'T', seed, 'quick', 2)
+        ev_syrk(c, 2, 0, 'd', (0, 1), 'U', 'N', seed, 'quick', 2)
+    else:
+        raise AssertionError(op)
